@@ -1,6 +1,6 @@
 """C05: wrong, missing or surplus parameters raise the right error, never mis-delivered."""
 import json
-import lib, parser_common as pc, suite_traces
+import lib, parser_common as pc, suite_traces, composition
 
 import re
 INTK = ('i32', 'u32', 'i64', 'u64')
@@ -51,7 +51,8 @@ def run(pid, tier):
         scen.append(s)
     obs = pc.execute(rep, scen, 'default', 'C05')
     pc.validate(rep, 'C05', scen, obs, 'C05-default', kindfn=kind)
-    suite_traces.validate(rep, 'C05:')      # hook traces of the repository's own test programs
+    suite_traces.validate(rep, 'C05:')
+    composition.validate(rep, 'C05', tier)   # random messages of a minimal instrument against Scpi.tla      # hook traces of the repository's own test programs
     nt = [s for s in scen if nontrivial(s)]
     rep.cov['distinct_nontrivial'] = len(nt)
     rep.cov['exhaustive'] = True
